@@ -565,8 +565,16 @@ class History:
         for m in w['mps']:
             urls += [f'/mps/vod/{m["name"]}/hand_made.mpd', f'/mps/live/{m["name"]}/hand_made.mpd?depth=20',
                      f'/api/multi-period-streams/{m["name"]}?ajax=1']
+        sdir = {s['pk']: s['directory'] for s in w['streams']}
         for f in w['files']:
             urls.append(f'/stream/{f["stream"]}/{f["pk"]}?ajax=1')
+            if f.get('rep') and f['stream'] in sdir:
+                # the media of every indexed file, with and without protection data
+                d, n = sdir[f['stream']], f['name']
+                urls += [f'/dash/vod/{d}/{n}/init.mp4', f'/dash/vod/{d}/{n}/init.mp4?drm=all', f'/dash/vod/{d}/{n}/1.mp4?drm=all',
+                         f'/dash/live/{d}/{n}/init.mp4?drm=playready-moov']
+        for s in w['streams']:
+            urls.append(f'/dash/vod/{s["directory"]}/hand_made.mpd?drm=all')
         for u in urls:
             r = env.get(u, client=client)
             res.count('probe.requests')
